@@ -134,12 +134,21 @@ def oracle_solver_independence(R, tier, seed):
     ym = crm()[0, :, 1]
     pm = dict(point_masses=[[8000.0]], point_mass_locations=[[25.0, 0.55 * ym[0] + 0.45 * ym[1], -0.5]], engine_thrusts=[[6e4]])
     cases.append(("tube-point-mass", lambda: surf_tube(n_point_masses=1, struct_weight_relief=True), dict(Mach=0.84, alpha=3.0, load_factor=1.5, **pm)))
+    # a rotating aircraft (pitch and yaw rates): the rotational onset velocity inside the loop uses the rates and the reference point the
+    # USER supplies; nothing computed after the loop may feed back into it
+    cases.append(("tube-rotational", lambda: surf_tube(), dict(Mach=0.84, alpha=3.0, point_kw={"rotational": True})))
+
+    def prepare(p, name):
+        if name == "tube-rotational":
+            p.set_val("AS_point_0.coupled.aero_states.omega", np.array([0.0, 0.09, 0.03]))
+            p.set_val("AS_point_0.coupled.aero_states.cg", np.array([30.0, 0.0, 1.0]))
     for name, mk, flow in cases:
         ref = None
         for sname, sfn in (_solvers() if (name == "tube" or tier != "quick") else _solvers()[:1]):
             O["cases"] += 1
             try:
                 p = structs.build_aerostruct([mk()], solver=sfn, **flow)
+                prepare(p, name)
                 _quiet(p.run_model)
             except om.AnalysisError as e:
                 R.notes.append("C12 %s/%s: did not converge (outside the quantifier): %s" % (name, sname, str(e)[:100])); O["ok"] += 1; continue
@@ -151,14 +160,15 @@ def oracle_solver_independence(R, tier, seed):
             if bad: O["failures"].append({"key": "C12:%s:state-depends-on-solver(%s)" % (name, sname), "case": {"model": name, "solver": sname, **{k: (float(v) if np.isscalar(v) else v) for k, v in flow.items()}}, "errors": bad})
             else: O["ok"] += 1
         # initial guess / previously analysed design point
-        hists = [[{"alpha": 6.0}], [{"alpha": -2.0, "Mach_number": 0.5}, {"alpha": 5.0}], [{"load_factor": 1.0}], [{"load_factor": 1.0, "alpha": 4.0}, {"load_factor": -1.0}]]
+        # ([{}]: the same point analysed twice in a row)
+        hists = [[{}], [{"alpha": 6.0}], [{"alpha": -2.0, "Mach_number": 0.5}, {"alpha": 5.0}], [{"load_factor": 1.0}], [{"load_factor": 1.0, "alpha": 4.0}, {"load_factor": -1.0}]]
         if "point_masses" in flow:
             loc = np.array(flow["point_mass_locations"], dtype=float)
             inboard = loc.copy(); inboard[0, 1] = 0.3 * ym[-2] + 0.7 * ym[-1]
             hists = [[{"point_mass_locations": inboard}], [{"point_mass_locations": inboard, "alpha": 5.0}, {"point_masses": np.array([[2000.0]])}]]
         for hist in hists:
             O["cases"] += 1
-            p = structs.build_aerostruct([mk()], **flow); tighten(p)
+            p = structs.build_aerostruct([mk()], **flow); tighten(p); prepare(p, name)
             for pt in hist:
                 for k, v in pt.items(): p.set_val(k, v)
                 _quiet(p.run_model)
